@@ -1,10 +1,12 @@
 (* C08 -- partial read returns exactly the selected part and never modifies the file.  Statements only.
-   PARTIAL: proved are (1) over the open-mode table GENERATED from the sources: every h5py.File( call on the
-   read path uses the literal 'r'; (2) compositionality of the tree reader: what a full read holds below a node for
-   each tagged child is exactly what reading that child alone (tree=False) plus its branch returns; (3) a read is
-   a function of the file only, and a path that is not in the file is an error.  Selection per tree option on real
-   files, sha256 before/after every read: correspondence + oracle.  Byte immutability under mode 'r' is HDF5's. *)
-From Emd Require Import Base.Prelude Model.H5 Model.Emd Model.Reader Generated.Tables Proofs.P08.
+   Proved: (1) over the open-mode table GENERATED from the sources every h5py.File( call on the read path uses the
+   literal 'r'; (2) for every saved tree and every inner node, the result of read(path, emdpath, tree) for each of the
+   three tree options, as a closed term: the root with its metadata and -- nothing else than -- the node alone / the node
+   with its whole branch / the branch below the node attached at root level, and this is what the full read holds at
+   that path; (3) compositionality of the tree reader on arbitrary files; (4) a path not in the file is an error, a
+   leading slash is ignored.  sha256 of the file before/after every read: oracle.  Byte immutability under mode 'r' is
+   HDF5's (trusted). *)
+From Emd Require Import Base.Prelude Model.H5 Model.Emd Model.Reader Generated.Tables Proofs.PTree Proofs.P08 Proofs.PRead.
 
 Theorem C08_read_path_opens_read_only :
   Forall (fun m => m = "r") read_path_open_modes /\ read_path_open_modes <> [].
@@ -17,6 +19,36 @@ Theorem C08_full_read_holds_what_partial_reads_return :
     read_single_node k c = Ok n -> populate c = Ok sub -> In (with_kids n sub) ks.
 Proof. exact populate_member. Qed.
 Print Assumptions C08_full_read_holds_what_partial_reads_return.
+
+(* the three partial reads of an inner node k at path p of a saved tree (canon / canon_shallow / rd_tree: see C01).
+   RTree t ret: t is the tree built under the returned root, ret which object read() hands back. *)
+Theorem C08_partial_reads_of_a_saved_tree :
+  forall c root p k,
+    rcls root = CRoot -> ok_tree root -> rd_tree root -> p <> [] -> rwalk root p = Some k ->
+    Forall (fun s => s <> "" /\ no_slash s = true) (rname root :: p) ->
+    let ep := Some (join_slash (rname root :: p)) in
+    let rt := canon_shallow root in
+    read (H5 (whole_file c root)) ep (Some false) = Ok (RTree (with_kids rt [canon_shallow k]) (RetNode [rname k])) /\
+    read (H5 (whole_file c root)) ep (Some true) = Ok (RTree (with_kids rt [canon k]) (RetNode [rname k])) /\
+    read (H5 (whole_file c root)) ep None = Ok (RTree (with_kids rt (rsort (map canon (rkids k)))) RetRoot).
+Proof. exact read_inner_node. Qed.
+Print Assumptions C08_partial_reads_of_a_saved_tree.
+
+(* ... and that node-with-branch is what the full read holds at the same path *)
+Theorem C08_partial_read_is_the_full_reads_subtree :
+  forall c root p k, rcls root = CRoot -> ok_tree root -> rd_tree root -> rname root <> "" -> no_slash (rname root) = true ->
+    rwalk root p = Some k ->
+    exists full ret, read (H5 (whole_file c root)) None (Some true) = Ok (RTree full ret) /\ rwalk full p = Some (canon k).
+Proof.
+  intros c root p k Hc Hok Hrd Hne Hns Hw. destruct (read_whole_file c root Hc Hrd Hne Hns) as (A & _).
+  exists (canon root), (ret_of (canon root)). split; [exact A|]. rewrite (rwalk_canon root Hok p), Hw. reflexivity.
+Qed.
+Print Assumptions C08_partial_read_is_the_full_reads_subtree.
+
+Example C08_hypotheses_satisfiable :
+  let t := RN CRoot "r" 0%Z 0 [("m1", 5%Z)] [ RN CArray "a b" 7%Z 2 [] [ RN CPl "p" 8%Z 0 [] [] ]; RN CNode "n" 0%Z 0 [] [] ] in
+  rd_tree t /\ rwalk t ["a b"; "p"] = Some (RN CPl "p" 8%Z 0 [] []) /\ Forall (fun s => s <> "" /\ no_slash s = true) ["r"; "a b"; "p"].
+Proof. cbn. split; [repeat split; discriminate|]. split; [reflexivity|]. repeat constructor; discriminate. Qed.
 
 (* a path whose next component is not a link of the current group is reported as an error *)
 Theorem C08_missing_path_is_an_error :
